@@ -1,8 +1,10 @@
 /-
   Property C08 — prefixing every line with a block-quote marker wraps the same content.
 
-  What is PROVED here (over GM.Model.LineRec, the Lean model of goldmark's line recognisers, tied to the Go
-  functions by the exhaustive function-level correspondence of harness component `linerec`):
+  What is PROVED here
+
+  (1) line level, over GM.Model.LineRec (the Lean model of goldmark's line recognisers, tied to the Go functions by
+      the exhaustive function-level correspondence of harness component `linerec`):
     * `quote_consumes_marker…`: on a tab-free line, `blockquoteParser.process` consumes exactly the marker
       (up to 3 spaces, `>`, one optional space), leaves padding 0, and the children see exactly the rest of
       the line, two (one) columns further right;
@@ -10,14 +12,42 @@
       thematic break, fence close, indented code, the openBlocks gate, the quote marker itself) answers the
       same from every start column — so the two columns the marker adds cannot change what the children see.
       Since /repo 3fb40b2 calcListOffset and listItemParser.Open take the column too: `offset_invariant_list`.
-      (The remaining recognisers — parseListItem, setext bar, ATX open, fence open — have no column
-      parameter at all; their only column-dependent input is the block offset covered by `blockOffset`.)
-  What is NOT proved: the composition of these steps by the block driver (parser.parseBlocks/openBlocks over
-  whole documents, blank-line bookkeeping, lazy continuation). That part of C08 is SEARCHED by the metamorphic
-  component `quote`.  Helper lemmas: GM/Proof/LineRec.lean.
+
+  (2) block level, over GM.Model.Blocks (the executable model of parser.parseBlocks / openBlocks / closeBlocks and
+      the ten default block parsers, tied to the real parser by harness component `blocks`), by a SIMULATION
+      between run A = the block phase on a source `D` and run B = the block phase on `quotePrefix D` (`"> "` in
+      front of every line). The relation (`GM.Blocks.SR`, GM/Proof/QuoteSimRel.lean): B's reader stands at the same
+      byte of the prefixed source (`p + 2·(k+1)` on line `k`), both without padding; B's node store is A's with one
+      more node (B's Document), A's Document being B's Blockquote, ids shifted by one, every stored segment moved by
+      the markers in front of its line; the context keys are the same; B's `openedBlocks` is A's with the Blockquote
+      block in front. `HasBlankPreviousLines` is NOT related (it differs for the blocks directly inside the quote,
+      parser.go:1099, and is read only by listParser.Close).
+    * `quote_first_line`, `quote_marker_every_line` — on every line of the prefixed source the driver / the
+      Blockquote's Continue consumes exactly `"> "` and hands the rest of the line to the children;
+    * `quote_step_open` / `quote_step_continue` / `quote_step_close` — ONE LINE STEP, parser by parser: from related
+      states inside a line, `Open` of each of the TEN block parsers, `Continue` of each of them (fenced code and list
+      item under explicit side conditions) and `Close` of each but the list parser (setext under a side condition)
+      behave identically in both runs and end in related states;
+    * `quote_driver_…` — closeBlocks, openBlocks (the whole `goto retry` loop with the contract monitor) and the
+      per-line loop over the opened blocks preserve the relation, for every set of parsers whose steps are simulated;
+    * `quote_prefix_run`, `quote_prefix_simulation_partial` — WHOLE RUNS, for every source without tab and CR that
+      ends with a line feed and contains no byte that can start a list item (`-`, `*`, `+`, digits): if the block
+      phase on `D` ends normally, has read all lines and has built a well-shaped store (three decidable facts about
+      the ORIGINAL run, C01/C05-type invariants of goldmark that are not proved yet: `GM.Blocks.quoteHypB` evaluates
+      them; the driver does so for every source of the class in the `blocks` correspondence), then the block phase on `quotePrefix D` ends normally and `QuotePrefixSimulation D` holds: its tree is
+      Document[Blockquote[tree of D, segments moved]].
+
+  What is NOT proved (`QuotePrefixSimulationAll` below is the full statement): documents with list items
+  (listParser.Close reads the blank-line flags; the relation does not cover them, and list item Continue needs the
+  invariant "the parent list just answered Continue"); documents whose last line has no `\n`; discharging the three
+  facts about the original run; the inline phase and the renderer (C08 on HTML is SEARCHED by component `quote`).
+  Helper lemmas: GM/Proof/LineRec.lean, GM/Proof/QuoteSim*.lean.
 -/
 import GM.Model.LineRec
 import GM.Proof.LineRec
+import GM.Proof.QuoteSimTop
+import GM.Proof.QuoteSimHypB
+import GM.Props.Blocks
 
 namespace GM.Props.C08
 open GM GM.LineRec GM.Proof.LineRec
@@ -109,5 +139,189 @@ example : listItemOpen [45, 9, 97] 0 0 = .ok (some { offset := 4, child := some 
 -- and the marker's optional "space" may be a partial tab: padding 2 is left behind
 example : quoteProcess (rd [] [62, 9, 97]) = some (true, { src := [62, 9, 97], start := 2, padding := 2 }) := by
   decide
+
+/-! ## block level: the simulation between the run on `D` and the run on `quotePrefix D` -/
+
+section blocks
+open GM.Blocks GM.Text GM.Spec
+
+/-- **First line.** On the first line of the prefixed source (`D` non-empty) `openBlocks` — from the state `Parse`
+    starts in — opens a Blockquote as the Document's only child, consumes exactly `"> "` (the reader ends at byte 2
+    of line 0, no padding) and retries with the Blockquote as parent: what is left to do is `openBlocks`' loop
+    below the Blockquote, in the reader state (shifted by the marker) in which the original run starts. -/
+theorem quote_first_line {src : Bytes} (hl : LineAt src 0 0) {s : St} (h : RI (quotePrefix src) s.r ⟨0, 0, 0⟩)
+    (hn : s.nodes = [{ kind := .document }]) (ho : s.pc.opened = []) (blank : Bool) :
+    ∃ r', RI (quotePrefix src) r' ⟨0, 2, 0⟩ ∧
+      openBlocks 0 blank s =
+        openBlocksLoop blank false (2 * (quotePrefix src).length + 7) 1 OpenResult.newBlocksOpened none
+          { r := r',
+            nodes := [{ kind := .document, children := [1] }, { kind := .blockquote, parent := some 0, blankPrev := blank }],
+            pc := { s.pc with blockOffset := 0, blockIndent := 0, opened := [{ node := 1, bp := .blockquote }] } } :=
+  openBlocks_first hl h hn ho blank
+
+/-- **Every later line.** At the start of line `k` of the prefixed source (which starts at byte `ls + 2·k`, `ls`
+    the start of line `k` of `D`) the Blockquote's `Continue` answers Continue|HasChildren, changes nothing but the
+    reader, and leaves it at byte `ls + 2·(k+1)`: exactly behind `"> "`, no padding. -/
+theorem quote_marker_every_line {src : Bytes} {k ls : Nat} (hl : LineAt src k ls) {sB : St}
+    (hb : RI (quotePrefix src) sB.r ⟨k, ls + 2 * k, 0⟩) :
+    ∃ r', bpContinue .blockquote 1 sB = .ok (stContinueHasChildren, { sB with r := r' }) ∧
+      RI (quotePrefix src) r' ⟨k, ls + 2 * (k + 1), 0⟩ :=
+  blockquoteContinue_marker hl hb
+
+/-- **One line step, `Open`.** For EVERY tab-free source and each of the TEN default block parsers: from states
+    related by `SR` inside line `k` (any position `p`, parents `parent` / `parent + 1`), if `Open` ends normally in
+    run A it ends normally in run B, with the same parser state bits, no node or the same node (id shifted), and in
+    related states at a position `p' ≥ p` of the same line. -/
+theorem quote_step_open (src : Bytes) (bp : BP) : OpenSim src bp := by
+  cases bp with
+  | setext => exact setextOpen_sim src
+  | thematic => exact thematicOpen_sim src
+  | list => exact listOpen_sim src
+  | listItem => exact listItemOpen_sim src
+  | code => exact codeOpen_sim src
+  | atx => exact atxOpen_sim src
+  | fenced => exact fencedOpen_sim src
+  | blockquote => exact blockquoteOpen_sim src
+  | html => exact htmlOpen_sim src
+  | paragraph => exact paragraphOpen_sim src
+
+/-- **One line step, `Continue`.** The same for `Continue` (same answer in both runs) of eight parsers from all
+    related states; for fenced code blocks when the remembered fence indent is not negative and the rest of the line
+    has a byte that is not a space (it fails only for a last line without `\n` consisting of exactly the fence's
+    indentation, where goldmark calls `Advance(-1)`); for list items when there is a current line and the parent
+    list's offsets are as `listParser.Continue` leaves them (`ListItemContPre`). -/
+theorem quote_step_continue (src : Bytes) :
+    (∀ bp, bp ≠ .fenced → bp ≠ .listItem → ContinueSim src bp) ∧
+    (∀ k ls p node sA sB, SR src k ls p sA sB → FenceOK sA → (∃ c ∈ (viewA src ls p).getD [], c ≠ 32) →
+      S2 (fun a b sA' sB' => b = a ∧ ∃ p', p ≤ p' ∧ SR src k ls p' sA' sB')
+        (bpContinue .fenced node sA) (bpContinue .fenced (node + 1) sB)) ∧
+    (∀ k ls p node sA sB, SR src k ls p sA sB → p < src.length → ListItemContPre src ls p node sA →
+      S2 (fun a b sA' sB' => b = a ∧ ∃ p', p ≤ p' ∧ SR src k ls p' sA' sB')
+        (bpContinue .listItem node sA) (bpContinue .listItem (node + 1) sB)) := by
+  refine ⟨fun bp h1 h2 => ?_, fencedContinue_sim' src, listItemContinue_sim' src⟩
+  cases bp with
+  | setext => exact setextContinue_sim src
+  | thematic => exact thematicContinue_sim src
+  | list => exact listContinue_sim src
+  | listItem => exact absurd rfl h2
+  | code => exact codeContinue_sim src
+  | atx => exact atxContinue_sim src
+  | fenced => exact absurd rfl h1
+  | blockquote => exact blockquoteContinue_sim src
+  | html => exact htmlContinue_sim src
+  | paragraph => exact paragraphContinue_sim src
+
+/-- **One line step, `Close`.** `Close` of every parser but the list parser is simulated (paragraph: the trimmed
+    lines stay the same lines moved; code block: the same trailing blank lines are dropped; setext heading: when
+    its node is not the Document and the temporary-paragraph key does not point to the Document). NOT covered:
+    `listParser.Close`, which reads `HasBlankPreviousLines`. -/
+theorem quote_step_close (src : Bytes) :
+    (∀ bp, bp ≠ .list → bp ≠ .setext → CloseSim src bp) ∧
+    (∀ k ls p node sA sB, SR src k ls p sA sB → node ≠ 0 → sA.pc.tmpPara ≠ some 0 →
+      S2 (fun _ _ sA' sB' => SR src k ls p sA' sB') (bpClose .setext node sA) (bpClose .setext (node + 1) sB)) := by
+  refine ⟨fun bp h1 h2 => ?_, setextClose_sim' src⟩
+  cases bp with
+  | setext => exact absurd rfl h2
+  | thematic => exact thematicClose_sim src
+  | list => exact absurd rfl h1
+  | listItem => exact listItemClose_sim src
+  | code => exact codeClose_sim src
+  | atx => exact atxClose_sim src
+  | fenced => exact fencedClose_sim src
+  | blockquote => exact blockquoteClose_sim src
+  | html => exact htmlClose_sim src
+  | paragraph => exact paragraphClose_sim src
+
+/-- **The driver, `openBlocks`.** For every set `al` of parsers whose steps are simulated (`PS`) and that covers the
+    parsers a line of `src` can trigger (`TrigOK`), with the unary facts `Frames` about run A (all proved:
+    `frames_all`) and every reader position inside a line having a non-space byte in front of it (`NS`: sources
+    ending with `\n`): `openBlocks parent` in A and `openBlocks (parent+1)` in B — the whole `goto retry` loop,
+    including the RequireParagraph path, closing a detached last block and the contract monitor, whose measure
+    differs by a constant of the line — give the same result and end in related states. -/
+theorem quote_driver_open_blocks {src : Bytes} {al : BP → Bool} (ps : PS src al) (fr : Frames al) (ns : NS src)
+    (tr : TrigOK src al) (bA bB : Bool) (q : Nat) {k ls p : Nat} {sA sB : St} (h : DRL src al k ls p sA sB) :
+    S2 (fun a b sA' sB' => b = a ∧ ∃ p', DR src al k ls p' sA' sB') (openBlocks q bA sA) (openBlocks (q + 1) bB sB) :=
+  openBlocks_sim ps fr ns tr bA bB q h
+
+/-- **The driver, one line.** The loop of parseBlocks over the opened blocks (parser.go:1081-1123) — A at levels
+    `i, i+1, …`, B one level deeper, B's `openedBlocks` being A's with the Blockquote in front — ends both in
+    `next` with related states or both at the end of the source with related node stores. -/
+theorem quote_driver_line {src : Bytes} {al : BP → Bool} (ps : PS src al) (fr : Frames al) (ns : NS src)
+    (tr : TrigOK src al) (ob : List Block) (L : Int) (rest : List Block) (hsub : ∀ b ∈ rest, b ∈ ob) (i : Int)
+    (hi : 0 ≤ i) (stA stB : List LineStat) {k ls p : Nat} {sA sB : St} (h : DR src al k ls p sA sB)
+    (hop : sA.pc.opened = ob) (hL : L = (ob.length : Int) - 1) :
+    S2 (LLRel src al k ls) (lineLoop 0 ob L rest i stA sA)
+      (lineLoop 0 (bqBlock :: ob.map shB) (L + 1) (rest.map shB) (i + 1) stB sB) :=
+  lineLoop_sim ps fr ns tr ob L rest hsub i hi stA stB h hop hL
+
+/-- **The driver, `closeBlocks`.** `closeBlocks(from, to)` in A and `closeBlocks(from+1, to+1)` in B. -/
+theorem quote_driver_close_blocks {src : Bytes} {al : BP → Bool} (ps : PS src al) (fr : Frames al) {k ls p : Nat}
+    {sA sB : St} (h : DR src al k ls p sA sB) (frm to : Int) :
+    S2 (fun _ _ sA' sB' => DR src al k ls p sA' sB') (closeBlocks frm to sA) (closeBlocks (frm + 1) (to + 1) sB) :=
+  closeBlocks_sim ps fr h frm to
+
+/-- **Whole runs.** For every source without tab and CR that ends with a line feed and has no byte that can start a
+    list item (`C08Class`): if the block phase on `D` ends normally in `sA` having read all lines of `D`, then the
+    block phase on `quotePrefix D` ends normally too (no panic, no contract violation, enough fuel), in a state whose
+    node store is `sA`'s with one more node in front, A's Document being B's Blockquote, and every segment moved
+    by the markers in front of its line. -/
+theorem quote_prefix_run {src : Bytes} (hc : C08Class src) {sA : St} (hA : GM.Blocks.run src = .ok sA)
+    (hre : ReadToEnd src sA) :
+    ∃ sB, GM.Blocks.run (quotePrefix src) = .ok sB ∧ StoreRel src sA.nodes sB.nodes :=
+  run_sim hc hA hre
+
+/-- **`QuotePrefixSimulation` for the class** (`GM.Props.Blocks.QuotePrefixSimulation`, the tree-level statement of
+    C08). For every source of `C08Class` whose ORIGINAL run ends normally, has read all lines and has a well-shaped
+    store (`WellShaped`: the Document has no lines, no List / ListItem node, no empty line / info / closure segment,
+    node 0 is nobody's child) the block tree of the prefixed source is Document[Blockquote[children of the original
+    Document, every segment moved by `shiftSeg`]], all printed fields equal. The three hypotheses are decidable facts
+    about the run on `D` alone (`quoteHypB` evaluates them together with the class); they are consequences of
+    invariants of goldmark's block phase that are stated but not proved in GM.Props.Blocks (`NoPanic`,
+    `LinesInRange`) and hold on every source evaluated. -/
+theorem quote_prefix_simulation_partial {src : Bytes} (hc : C08Class src) {sA : St} (hA : GM.Blocks.run src = .ok sA)
+    (hre : ReadToEnd src sA) (hw : WellShaped sA) : GM.Props.Blocks.QuotePrefixSimulation src :=
+  quoteSim_of_class hc hA hre hw
+
+/-- the same, from the executable test `GM.Blocks.quoteHypB` (GM/Spec/QuoteHyp.lean: the class and the three facts
+    about the original run as one Bool; the driver evaluates it — op `blocks quotesimhyp` — on every source of the
+    class that the `blocks` correspondence generates) -/
+theorem quote_prefix_simulation_checked {src : Bytes} (h : quoteHypB src = true) :
+    GM.Props.Blocks.QuotePrefixSimulation src :=
+  quoteSim_of_hypB src h
+
+/-- **The full statement of C08 on block trees — NOT PROVED.** `QuotePrefixSimulation D` for every tab- and CR-free,
+    non-blank `D` (for other `D` it holds vacuously: `quoteSimPair` answers `none`). Proved: the instance
+    `quote_prefix_simulation_partial`. Missing, in this order of size: (1) the three facts about the original run for
+    every source (no panic; every non-blank line at top level opens a block; no empty segment) — the open C01 / C05(c)
+    obligations of the block phase; (2) a last line without `\n` (the relation has no reader state for "behind a
+    line without line feed": fenced code and list item `Continue` call `Advance(-1)` there); (3) list items: the
+    `HasBlankPreviousLines` flags of list items and of children of list items must be related (they are equal,
+    all 516k evaluated cases) through the blank-line statistics of parseBlocks, for `listParser.Close`, and
+    `listItemParser.Continue` needs "the parent list's Continue just answered Continue" (`ListItemContPre`). -/
+def QuotePrefixSimulationAll : Prop :=
+  ∀ src : Bytes, GM.Props.Blocks.QuotePrefixSimulation src
+
+/-! ### non-vacuity and tests for the block-level theorems -/
+
+-- the class and the three facts about the original run are satisfiable together: a document with an ATX and a setext
+-- heading, paragraphs, nested quotes, fenced and indented code, an HTML block and a thematic break
+example : quoteHypB (strBytes "a\n===\n\n~~~x\n  \ncode\n~~~\n> q\n> > r\n\n<div>\nh\n</div>\n\n    ind\n___\n# t\n") = true := by
+  decide +kernel
+-- hence the theorem applies to it
+example : GM.Props.Blocks.QuotePrefixSimulation
+    (strBytes "a\n===\n\n~~~x\n  \ncode\n~~~\n> q\n> > r\n\n<div>\nh\n</div>\n\n    ind\n___\n# t\n") :=
+  quote_prefix_simulation_checked (by decide +kernel)
+-- test: the executable statement on the same document
+example : GM.Blocks.quoteSim (strBytes "a\n===\n\n~~~x\n  \ncode\n~~~\n> q\n> > r\n\n<div>\nh\n</div>\n\n    ind\n___\n# t\n") = "ok" := by
+  decide +kernel
+-- the class excludes list markers and a missing final line feed
+example : ¬ C08Class (strBytes "- a\n") := by decide +kernel
+example : ¬ C08Class (strBytes "a") := by decide +kernel
+-- the hypotheses of the one-line-step lemmas are satisfiable: the relation holds at the start of the runs
+example : StoreRel (strBytes "a\n") [{ kind := .document }]
+    [{ kind := .document, children := [1] }, { kind := .blockquote, parent := some 0, blankPrev := true }] :=
+  storeRel_init _ true
+
+end blocks
 
 end GM.Props.C08
